@@ -4,6 +4,7 @@ import (
 	"bytes"
 	stdjson "encoding/json"
 	"fmt"
+	"io"
 	"math/big"
 	"reflect"
 	"strconv"
@@ -247,7 +248,7 @@ var c16NonInteger = []string{"-", "-0", "00", "01", "-01", "1.0", "1e0", "1E+1",
 type c16Pos struct {
 	name string
 	doc  func(lit string) string
-	dst  func(t reflect.Type) reflect.Value            // pointer to destination
+	dst  func(t reflect.Type) reflect.Value           // pointer to destination
 	get  func(t reflect.Type, d reflect.Value) string // canonical reading of the decoded integer
 }
 
@@ -464,6 +465,116 @@ func c16Decode(c *work.Ctx) {
 				c.Sample(it.name + " <- " + lit)
 			}
 			c.EndCase()
+		}
+	}
+}
+
+// ---- stream placement ---------------------------------------------------------------------------------
+//
+// c16.stream: the stream decoders scan digits across buffer refills with loops of their own. Every integer type
+// x boundary literals (min, max, one beyond, a long one, powers of ten) is placed so that the literal ENDS at
+// each offset 507..516 and 1019..1028 of the stream (the initial 512-byte buffer and its first doubling): at top
+// level behind white space, as an array element and as an object member, read from a reader that delivers
+// everything at once and from readers of 1, 3, 511, 512, 513 bytes per Read. Oracle: the exact value when the
+// literal is a JSON integer in range, an error otherwise (math/big).
+
+func init() {
+	work.Register("C16", "c16.stream", c16Stream)
+}
+
+func c16Stream(c *work.Ctx) {
+	ends := []int{507, 508, 509, 510, 511, 512, 513, 514, 515, 516, 1019, 1020, 1021, 1022, 1023, 1024, 1025, 1026, 1027, 1028}
+	if !c.Quick() {
+		for e := 2040; e <= 2056; e++ {
+			ends = append(ends, e)
+		}
+		for e := 4090; e <= 4102; e++ {
+			ends = append(ends, e)
+		}
+	}
+	type form struct {
+		name string
+		doc  func(pad int, lit string) string
+		dst  func(t reflect.Type) reflect.Value
+		get  func(v reflect.Value) (string, bool) // decoded value as decimal text
+		head int                                  // bytes before the padding
+	}
+	forms := []form{
+		{"top level", func(p int, l string) string { return strings.Repeat(" ", p) + l + " " }, func(t reflect.Type) reflect.Value { return reflect.New(t) },
+			func(v reflect.Value) (string, bool) { return fmt.Sprint(v.Elem().Interface()), true }, 0},
+		{"array element", func(p int, l string) string { return "[" + strings.Repeat(" ", p) + l + ",7]" }, func(t reflect.Type) reflect.Value { return reflect.New(reflect.SliceOf(t)) },
+			func(v reflect.Value) (string, bool) {
+				if v.Elem().Len() != 2 {
+					return "", false
+				}
+				return fmt.Sprint(v.Elem().Index(0).Interface()), fmt.Sprint(v.Elem().Index(1).Interface()) == "7"
+			}, 1},
+		{"object member", func(p int, l string) string { return `{"k":` + strings.Repeat(" ", p) + l + `,"j":7}` }, func(t reflect.Type) reflect.Value { return reflect.New(reflect.MapOf(reflect.TypeOf(""), t)) },
+			func(v reflect.Value) (string, bool) {
+				k := v.Elem().MapIndex(reflect.ValueOf("k"))
+				j := v.Elem().MapIndex(reflect.ValueOf("j"))
+				if !k.IsValid() || !j.IsValid() {
+					return "", false
+				}
+				return fmt.Sprint(k.Interface()), fmt.Sprint(j.Interface()) == "7"
+			}, 5},
+	}
+	for _, it := range c16IntTypes {
+		one := big.NewInt(1)
+		lits := []string{it.max().String(), new(big.Int).Add(it.max(), one).String(), it.min().String(), new(big.Int).Sub(it.min(), one).String(),
+			"1234567890123456789012", "100", "12", "9", new(big.Int).Rsh(it.max(), 1).String(), new(big.Int).Mul(it.max(), big.NewInt(10)).String()}
+		for _, lit := range lits {
+			form16 := c16Form(lit, it)
+			var wantVal *big.Int
+			if form16 == "in-range" || form16 == "minus-zero" {
+				wantVal, _ = new(big.Int).SetString(lit, 10)
+			}
+			for _, f := range forms {
+				id := fmt.Sprintf("stream %s <- %s %s", it.name, f.name, lit)
+				if !c.BeginS(id) {
+					continue
+				}
+				for _, end := range ends {
+					pad := end - len(lit) - f.head
+					if pad < 0 {
+						continue
+					}
+					doc := []byte(f.doc(pad, lit))
+					for _, ps := range []int{0, 1, 3, 511, 512, 513} {
+						var r io.Reader = bytes.NewReader(doc)
+						if ps > 0 {
+							r = &chunkReader{data: doc, pieceSize: ps, zeroAt: -1, failAt: -1}
+						}
+						dst := f.dst(it.t)
+						var err error
+						p, msg := util.Safe(func() { err = json.NewDecoder(r).Decode(dst.Interface()) })
+						c.Count("stream_decodes", 1)
+						kind := ""
+						switch {
+						case p:
+							kind = "panic:" + util.ErrClass(msg)
+						case wantVal != nil && err != nil:
+							kind = "rejected"
+						case wantVal == nil && err == nil:
+							kind = "accepted"
+						case wantVal != nil:
+							if got, rest := f.get(dst); got != wantVal.String() || !rest {
+								kind = "wrong-value"
+							}
+						}
+						c.Outcome(kind)
+						if kind != "" {
+							got, _ := f.get(dst)
+							c.Violation(fmt.Sprintf("stream decode %s : %s : %s : literal ending at buffer offset %d : %s", it.name, f.name, form16, end%512, kind),
+								fmt.Sprintf("%s ending at %d, %d bytes per Read", id, end, ps), fmt.Sprintf("err=%v stored=%s", err, got))
+						}
+					}
+				}
+				if c.WantSample() {
+					c.Sample(id)
+				}
+				c.EndCase()
+			}
 		}
 	}
 }
